@@ -1,4 +1,161 @@
-import Physt.Theorems.C01
+import Physt.Theorems.C03
+import Physt.Theorems.C13
+import Physt.Theorems.C06
+import Mathlib.Algebra.Order.BigOperators.Group.List
+/-!
+# C18 — histograms stay well-formed; failed operations change nothing
+
+In the model every in-place operation is a function `state → Except error state`: a refused call
+produces **no** new state, so the caller's histogram is literally unchanged.  Where the
+implementation promotes the dtype before it validates (`*=`, `/=`, `-=`, adaptive `+=`), the driver
+applies exactly that lossless promotion to the refused target; `C18_refused_promotion` shows it is
+the only thing that differs.  That the real code validates before it mutates is what the
+correspondence check (snapshot before / after every injected invalid call) establishes.
+-/
 namespace Physt
-theorem C18_placeholder : True := trivial
+open H1
+
+/-- shapes match, squared errors and contents are non-negative -/
+structure WF (fo : FloatOps) (h : H1) : Prop where
+  flen : h.freq.length = (h.bins fo).length
+  elen : h.err2.length = (h.bins fo).length
+  epos : ∀ x ∈ h.err2, 0 ≤ x
+  fpos : ∀ x ∈ h.freq, 0 ≤ x
+
+theorem wf_empty (fo : FloatOps) (b : Binning) (keep : Bool) (dt : Option DType) : WF fo (H1.empty fo b keep dt) := by
+  refine ⟨by simp [H1.empty, H1.bins, zeros], by simp [H1.empty, H1.bins, zeros], ?_, ?_⟩ <;>
+    (intro x hx; simp [H1.empty, zeros] at hx; rw [hx.2])
+
+theorem any_lt_false {l : List Rat} (h : (l.any (· < 0)) = false) : ∀ x ∈ l, 0 ≤ x := by
+  intro x hx
+  by_contra hneg
+  have : l.any (· < 0) = true := List.any_eq_true.mpr ⟨x, hx, by simpa using hneg⟩
+  rw [h] at this; cases this
+
+/-- scaling keeps a histogram well-formed (a factor that would make a content negative is refused) -/
+theorem C18_wf_imul (fo : FloatOps) (h r : H1) (c : Rat) (k : NumKind) (w : WF fo h) (hr : h.imul c k = .ok r) :
+    WF fo r := by
+  obtain ⟨_, f, e, _, _, _, _, b, _, hn⟩ := imul_ok h r c k hr
+  refine ⟨?_, ?_, ?_, ?_⟩
+  · simp only [H1.bins, b]; rw [f, List.length_map]; exact w.flen
+  · simp only [H1.bins, b]; rw [e, List.length_map]; exact w.elen
+  · intro x hx
+    rw [e] at hx
+    obtain ⟨y, hy, rfl⟩ := List.mem_map.mp hx
+    exact mul_nonneg (w.epos y hy) (mul_self_nonneg c)
+  · rw [f]; exact any_lt_false hn
+
+theorem C18_wf_idiv (fo : FloatOps) (h r : H1) (c : Rat) (w : WF fo h) (hr : h.idiv c = .ok r) : WF fo r := by
+  obtain ⟨hc, _, f, e, _, _, _, _, b, _, hn⟩ := idiv_ok h r c hr
+  refine ⟨?_, ?_, ?_, ?_⟩
+  · simp only [H1.bins, b]; rw [f, List.length_map]; exact w.flen
+  · simp only [H1.bins, b]; rw [e, List.length_map]; exact w.elen
+  · intro x hx
+    rw [e] at hx
+    obtain ⟨y, hy, rfl⟩ := List.mem_map.mp hx
+    exact div_nonneg (w.epos y hy) (mul_self_nonneg c)
+  · rw [f]; exact any_lt_false hn
+
+theorem zipAdd_nonneg (a b : List Rat) (ha : ∀ x ∈ a, 0 ≤ x) (hb : ∀ x ∈ b, 0 ≤ x) : ∀ x ∈ zipAdd a b, 0 ≤ x := by
+  intro x hx
+  unfold zipAdd at hx
+  obtain ⟨i, hi, rfl⟩ := List.getElem_of_mem hx
+  have hi' : i < a.length ∧ i < b.length := by simpa using hi
+  simp only [List.getElem_zipWith]
+  have h1 := ha _ (List.getElem_mem hi'.1)
+  have h2 := hb _ (List.getElem_mem hi'.2)
+  linarith
+
+/-- adding two well-formed histograms over the same bins gives a well-formed histogram -/
+theorem C18_wf_iadd (fo : FloatOps) (h o r : H1) (wh : WF fo h) (wo : WF fo o) (hs : h.sameBins fo o = true)
+    (hr : h.iadd fo o = .ok r) : WF fo r := by
+  obtain ⟨_, f, e, _, _, _, _, b, _⟩ := iadd_same_ok fo h o r hs hr
+  have hb : h.bins fo = o.bins fo := by simpa [sameBins] using hs
+  refine ⟨?_, ?_, ?_, ?_⟩
+  · simp only [H1.bins, b]; rw [f, zipAdd_length, wh.flen, wo.flen, ← hb]; simp [H1.bins]
+  · simp only [H1.bins, b]; rw [e, zipAdd_length, wh.elen, wo.elen, ← hb]; simp [H1.bins]
+  · rw [e]; exact zipAdd_nonneg _ _ wh.epos wo.epos
+  · rw [f]; exact zipAdd_nonneg _ _ wh.fpos wo.fpos
+
+theorem wsum_filter_nonneg (d : List Pt) (q : Pt → Bool) (hw : ∀ p ∈ d, 0 ≤ p.2) : 0 ≤ wsum (d.filter q) := by
+  unfold wsum
+  apply List.sum_nonneg
+  intro x hx
+  obtain ⟨p, hp, rfl⟩ := List.mem_map.mp hx
+  exact hw p (List.mem_filter.mp hp).1
+
+theorem w2sum_filter_nonneg (d : List Pt) (q : Pt → Bool) : 0 ≤ w2sum (d.filter q) := by
+  unfold w2sum
+  apply List.sum_nonneg
+  intro x hx
+  obtain ⟨p, _, rfl⟩ := List.mem_map.mp hx
+  exact mul_self_nonneg _
+
+/-- **Filling keeps a histogram well-formed**: a `fill_n` batch with non-negative weights over
+    static rising bins. -/
+theorem C18_wf_fill_n (fo : FloatOps) (h : H1) (bins : Bins) (ire : Bool) (hb : Rising bins)
+    (hbin : h.binning = .static bins ire) (w : WF fo h) (d : List Pt) (hw : ∀ p ∈ d, 0 ≤ p.2) :
+    WF fo (h.fillData fo d) := by
+  have hbins : h.bins fo = bins := by simp [H1.bins, hbin, Binning.bins]
+  have cf : ∀ x ∈ (calc1d bins d).freq, 0 ≤ x := by
+    intro x hx
+    obtain ⟨i, hi, rfl⟩ := List.getElem_of_mem hx
+    have hi' : i < bins.length := by rw [calc1d_freq_length] at hi; exact hi
+    have := (C01_content bins d hb i hi').1
+    rw [List.getElem?_eq_getElem hi] at this
+    rw [Option.some.inj this]
+    exact wsum_filter_nonneg d _ hw
+  have ce : ∀ x ∈ (calc1d bins d).err2, 0 ≤ x := by
+    intro x hx
+    obtain ⟨i, hi, rfl⟩ := List.getElem_of_mem hx
+    have hi' : i < bins.length := by rw [calc1d_err2_length] at hi; exact hi
+    have := (C01_content bins d hb i hi').2
+    rw [List.getElem?_eq_getElem hi] at this
+    rw [Option.some.inj this]
+    exact w2sum_filter_nonneg d _
+  refine ⟨?_, ?_, ?_, ?_⟩
+  · simp only [fillData, H1.bins, hbin, Binning.bins]
+    rw [zipAdd_length, calc1d_freq_length, w.flen, hbins]; simp
+  · simp only [fillData, H1.bins, hbin, Binning.bins]
+    rw [zipAdd_length, calc1d_err2_length, w.elen, hbins]; simp
+  · simp only [fillData, hbins]; exact zipAdd_nonneg _ _ w.epos ce
+  · simp only [fillData, hbins]; exact zipAdd_nonneg _ _ w.fpos cf
+
+/-- a slice of a well-formed histogram is well-formed -/
+theorem C18_wf_slice (fo : FloatOps) (h : H1) (w : WF fo h) (a b : Option Int) : WF fo (h.getSlice fo a b) := by
+  have hl : ∀ {α} (l : List α) (n : Nat), l.length = n → ∀ (m : List Rat), m.length = n →
+      (sliceList m a b).length = (sliceList l a b).length := by
+    intro α l n hl m hm; simp [sliceList, pySlice, sliceBounds, hl, hm]
+  refine ⟨?_, ?_, ?_, ?_⟩
+  · exact hl (h.bins fo) _ rfl h.freq w.flen
+  · exact hl (h.bins fo) _ rfl h.err2 w.elen
+  · intro x hx
+    have : x ∈ h.err2 := List.mem_of_mem_drop (List.mem_of_mem_take (by simpa [getSlice, sliceList, pySlice] using hx))
+    exact w.epos x this
+  · intro x hx
+    have : x ∈ h.freq := List.mem_of_mem_drop (List.mem_of_mem_take (by simpa [getSlice, sliceList, pySlice] using hx))
+    exact w.fpos x this
+
+/-- **A refused call changes nothing.**  Every validating operation of the model returns either a
+    new state or an error *instead of* a state; e.g. for `*=`: when the call is refused, the only
+    thing the implementation has touched is the dtype, and that promotion is lossless. -/
+theorem C18_refused_promotion (h : H1) (d : DType) :
+    (h.coerce d).freq = h.freq ∧ (h.coerce d).err2 = h.err2 ∧ (h.coerce d).under = h.under ∧
+    (h.coerce d).over = h.over ∧ (h.coerce d).inner = h.inner ∧ (h.coerce d).binning = h.binning ∧
+    DType.canCast h.dtype (h.coerce d).dtype = true :=
+  ⟨rfl, rfl, rfl, rfl, rfl, rfl, (C13_lossless h.dtype d).1⟩
+
+/-- an operation that would make a content negative (negative factor, subtracting more than is
+    there) is refused -/
+theorem C18_refuse_negative (h : H1) (c : Rat) (k : NumKind) (x : Rat) (hx : x ∈ h.freq) (hneg : x * c < 0) :
+    ∃ e, h.imul c k = .error e :=
+  imul_refused h c k (List.any_eq_true.mpr ⟨x * c, List.mem_map.mpr ⟨x, hx, rfl⟩, by simpa using hneg⟩)
+
+theorem C18_isub_nonneg (fo : FloatOps) (h o r : H1) (hr : h.isub fo o = .ok r) : ∀ x ∈ r.freq, 0 ≤ x :=
+  any_lt_false (isub_ok fo h o r hr).2.2.2.2
+
+/-! Non-vacuity -/
+example : ∃ e, ({ binning := .static [(0, 1)] true, freq := [2], err2 := [2] } : H1).imul (-1) .pyInt = .error e :=
+  C18_refuse_negative _ _ _ 2 (by simp) (by norm_num)
+
 end Physt
